@@ -1,1 +1,157 @@
+"""Reviewed residue of the obligation engine (see reviewed.py for the format).
+
+Classes
+  env       the operand comes from the kernel, the clock, the RNG or socket metadata, never from packet bytes or configuration text
+  config    the operand comes from the loaded configuration only; outside C05's quantifier (byte strings), decided by C19
+  internal  an invariant between erbium's own components makes the failure impossible; `requires` names the structural rules
+            (of this or another property) that establish the invariant and are re-evaluated on every run
+  unreach   a match arm that is unreachable by construction (the matched value cannot carry that variant there)
+  loop      safe by a loop invariant the engine does not infer
+"""
 from .reviewed import R, REVIEWED_LOOPS
+
+C05 = ("C05",)
+
+# ------------------------------------------------------------------ configuration-only operands (C19 decides them)
+R("09b85350de", "config", "Prefix4::new asserts prefixlen <= 32; every caller passes the length of a configured prefix or of an interface "
+  "address, never a packet field", count=2, props=C05)
+R("e89c8b29b6", "internal", "the arm is entered only when network() has the ::ffff:0:0/96 pattern, and network() masks the address with the "
+  "prefix length, so the pattern can only survive when prefixlen >= 96", requires=("C08.R6",))
+R("20e9f0a879", "config", "32 - prefixlen of a configured/interface prefix that Ipv4Subnet::new accepted on the previous line", props=C05)
+R("73d71a18c6", "config", "1 << (32 - prefixlen): prefix length of a configured/interface prefix, not packet data", props=C05)
+R("5bd63f57ef", "config", "(1 << n) - 1 with n from a configured/interface prefix", props=C05)
+R("b7c00e393d", "config", "network + offset with offset < 2^(32-prefixlen): stays inside the configured subnet", props=C05)
+R("7f379f249b", "config", "Ipv4Subnet::netmask shifts by the prefix length of a configured or interface subnet", props=C05)
+R("1a5ec36410", "config", "dest[0] of a forward route: the server list comes from the configuration", props=C05)
+R("846664c7f6", "config", "RA option length octet: length of a configured option value", props=C05)
+R("e45e0bc380", "config", "RA RDNSS length octet: 1 + 2 * number of configured servers", props=C05)
+R("9c79c3c9aa", "config", "RA DNSSL length octet: 1 + size of the configured search list / 8", props=C05)
+R("86f2138601", "config", "IPv4 total length: 20 + size of the DHCP reply, whose size is fixed by the configured options and the fixed "
+  "BOOTP header, not by the request", props=C05)
+R("24ee7924bc", "config", "UDP length: 8 + size of the DHCP reply (see new_ipv4)", props=C05)
+
+# ------------------------------------------------------------------ environment
+for h, n, why in (
+    ("a91be69c17", 1, "destination address of a received datagram: IP_PKTINFO is enabled on the DHCP socket at creation"),
+    ("2d9e57c744", 1, "receiving interface index from IP_PKTINFO"),
+    ("884afb67b5", 1, "interface index i32 -> u32: kernel indices are positive"),
+    ("39fa54a5f7", 1, "interface index conversion for the raw socket: kernel value"),
+    ("0dfdb9faa8", 1, "source address of a datagram received on an AF_INET socket is a sockaddr_in"),
+    ("474ccd7c7f", 1, "source address of a datagram received on an AF_INET socket is a sockaddr_in"),
+    ("90134077b2", 1, "interface index conversion: kernel value"),
+    ("b73d7cef78", 1, "system clock earlier than 1970"),
+    ("20de02d239", 1, "system clock earlier than 1970"),
+    ("8d4b2be7e6", 1, "system clock earlier than 1970"),
+    ("c729690782", 1, "now - 10 with now = seconds since 1970"),
+    ("68e313c282", 1, "bucket level (seconds since 1970, at most the cost of one datagram ahead) + cost/TOKENS_PER_SECOND in u32: year 2106"),
+    ("7a73a6680c", 1, "seconds since 1970 + a lease duration already clamped to the policy maximum, in u64"),
+    ("1889e1f7e4", 1, "Instant::now() + a random duration below a constant"),
+    ("3bf427676e", 1, "operating-system RNG failure"),
+    ("da700b9ab1", 1, "operating-system RNG failure"),
+    ("520a4d9390", 1, "remote address of a UDP/TCP DNS socket is an IP address"),
+    ("43341b128a", 1, "remote address of a UDP/TCP DNS socket is an IP address (other address families never reach the cookie code)"),
+    ("284bd6810e", 1, "local address of a received datagram: IP_PKTINFO / IPV6_RECVPKTINFO enabled on the DNS socket"),
+    ("80b1e4deb0", 2, "source address of a received datagram is always reported by recvmsg"),
+    ("d39023a62f", 1, "local address of an accepted TCP connection"),
+    ("6bd8eb597a", 1, "local address of an accepted TCP connection"),
+    ("1a653aa623", 1, "local address of a connected UDP socket"),
+    ("16674eaf0e", 1, "difference of two Instant::now() readings of the monotonic clock, later minus earlier"),
+    ("5f486516bb", 1, "Instant + constant 120 s"),
+    ("48d24f4011", 1, "Instant + constant 120 s"),
+    ("eae0d9ce64", 1, "interface table from netlink: the interface a solicitation arrived on is known"),
+    ("a1c1ac9afe", 1, "an IPv6-enabled interface always has a link-local address (netlink)"),
+    ("c2953f5b87", 1, "interface index conversion: kernel value"),
+    ("bb83030d3d", 1, "sockaddr handed out by the kernel has a valid family and length"),
+):
+    R(h, "env", why, count=n)
+
+# ------------------------------------------------------------------ clock arithmetic on bounded durations
+R("8248e5f66d", "internal", "Instant + lifetime, lifetime <= u32::MAX seconds (folded from 32-bit record TTLs or the constant 8 s)", requires=("C06.R3",))
+R("a626129d44", "internal", "Instant + lifetime, lifetime <= u32::MAX seconds", requires=("C06.R3",))
+R("72e0fc64e3", "internal", "(birth + lifetime) - now on the edge where expiry() >= now", requires=("C06.R2",))
+R("2e61caff4b", "internal", "now - birth: birth is an earlier reading of the same monotonic clock")
+R("2e7599deba", "internal", "Duration * small constant: dur is a measured round trip below the timeout (<= MAX_DNS_TIMEOUT)")
+R("c24e39ee32", "internal", "Duration * small constant: the shared timeout is clamped to [MIN_DNS_TIMEOUT, MAX_DNS_TIMEOUT] on every store")
+R("7fb22b53c3", "internal", "sum of the two bounded products above")
+R("e1749eed04", "internal", "Duration * small constant: dur is a measured round trip")
+R("b989955a97", "internal", "timeout/2 + jitter < timeout; the retry loop ends after a fixed number of rounds so the timeout stays far below Duration::MAX")
+R("8e8a0794c4", "internal", "timeout += at most 1.5 * timeout for a fixed number of retry rounds")
+
+# ------------------------------------------------------------------ mutexes and channels
+R("c3fdd12a00", "internal", "address_cache mutex: the critical sections only touch a HashSet and cannot panic, so the lock is never poisoned", count=3)
+R("469778b6a2", "internal", "the cache Option was filled a few lines above under the same call")
+R("1b171b2551", "internal", "oneshot send: the requester awaits the receiver with no cancellation point in between")
+R("2e863439bd", "internal", "oneshot send: the requester awaits the receiver with no cancellation point in between")
+R("ec06dd0224", "internal", "oneshot send: the requester awaits the receiver with no cancellation point in between")
+R("48fba22fcf", "internal", "send_tcp_query is called only after run() has (re)opened self.tcp on the same loop iteration")
+R("33b83cdd98", "internal", "read_reply is polled only while self.tcp is Some (the select arm is guarded by it)")
+R("b9718c2c5b", "internal", "futures::select! without a complete branch: the mpsc receiver and the timers never all complete")
+R("4ba84a4f1f", "internal", "futures::select! without a complete branch: the sleep arm is always pending or ready")
+R("d6c509b83f", "internal", "recv_in_query's Err is matched before the unwrap on the Ok arm")
+R("8f0e816ca3", "internal", "recv_in_query's Err is matched before the unwrap on the Ok arm")
+R("7211a583b9", "internal", "the set of service futures is non-empty: at least one listener was pushed or new() failed earlier")
+R("e8c4fd0656", "internal", "JoinError only if a listener task panicked, which is what this property excludes")
+for h in ("627e998b2a", "90c6d33686", "4f607836c2", "8b008fce6c"):
+    R(h, "internal", "fmt::Write for String never returns an error")
+
+# ------------------------------------------------------------------ decoder / encoder agreements
+R("e35858ec62", "loop", "v[i] with i from 0..v.len(); the only mutation (truncate) is followed by break")
+R("82dd26d7cb", "internal", "expiry - start of a lease row: the single lease write stores expiry = start + duration", requires=("C10.R3", "C01.R1"))
+R("76358d051a", "internal", "2 * (u32 difference as u64)")
+R("4a36f6da52", "unreach", "the cache sits below the ACL and listener layers: listener/ACL error variants are never produced by what it calls",
+  count=5, requires=("S1",))
+R("eaf4a031b1", "unreach", "create_in_error receives errors of the handler chain only; listen/accept/recv/parse errors are produced "
+  "before a query exists", count=4, requires=("C07.R5",))
+R("f13c6cccc5", "internal", "RData::Other is only built by the decoder from get_bytes(rdlen) with rdlen a u16", requires=("C14.R1",))
+R("b6ce84023a", "internal", "rcode <= 0xfff: the decoder builds it from a 4-bit field plus an 8-bit extension; local errors are constants", requires=("C14.R2",))
+R("83515f7b55", "internal", "record counters: one increment per record of a decoded message, whose section counts are u16; more records "
+  "than 65535 cannot fit the size limit first", count=3, requires=("C04.R3",))
+for h in ("e8859f11aa", "0590e89bcb", "4ae99c71df", "21f7521c1b"):
+    R(h, "internal", "patching the 12-octet header that the same function wrote first", requires=("C04.R2",))
+R("6f500c9ab2", "internal", "ttl - decrement: a hit is served only while now <= birth + lifetime and lifetime is the minimum TTL over the very "
+  "sections that are decremented", count=3, requires=("C06.R1", "C06.R2", "C06.R3"))
+R("232ad62f6d", "internal", "Label::from(bytes): the decoder reads 1..63 octets for a label (a zero length ends the name)", requires=("C14.R6",))
+R("c2b4296573", "internal", "labels are never empty (Label::from asserts it at construction)")
+R("6e7553bc2c", "internal", "labels hold at most 63 octets: the decoder accepts only length octets without the two top bits", requires=("C14.R6",))
+R("63a735528d", "internal", "push_prefix is called with a non-empty label list: the root name is written by the caller; the recursion passes a non-empty prefix")
+R("dedea7bf5f", "unreach", "a callee that found no node cannot have been given a child, so (None, None) cannot come back")
+R("555fb018c7", "internal", "write position + base offset: both bounded by the message size limit", requires=("C04.R3",))
+R("a95c54b1c8", "internal", "write position + base offset: both bounded by the message size limit", requires=("C04.R3",))
+R("b928934e4f", "internal", "a node is a pointer target only when its offset is below 0x4000", requires=("C14.R3",))
+R("e5863a07a6", "internal", "node offsets are >= 12: every name is written after the header", requires=("C14.R4", "C04.R2"))
+R("54ce5f3c46", "internal", "0xc0 + (offset >> 8) with offset < 0x4000", count=2, requires=("C14.R3",))
+R("cc0b823c76", "internal", "character-strings come from get_string, whose length is one octet")
+R("6271723e32", "internal", "the client cookie is the first 8 octets returned by get_cookie")
+R("f966cff6de", "internal", "the server cookie is the 32-octet HMAC output")
+R("d28506018c", "internal", "the RDATA variant is chosen from the record type by the decoder, so the type asserted for a variant is the type "
+  "that selected it", count=3, requires=("C14.R1",))
+R("04aec6340c", "internal", "HMAC accepts keys of any length")
+R("97d103203a", "internal", "HMAC-SHA256 output is 32 octets")
+R("08eac32c12", "internal", "offset + count: offset <= 0x3fff or <= len(buffer), count <= 65535", count=2)
+R("90644cccd8", "internal", "len - offset in the error message: get_bytes runs only after a successful get_u8, so offset <= len (a pointer "
+  "jump past the end fails in get_u8 first)")
+R("3092b59d64", "internal", "name length accumulator: checked against 254 after every addition of at most 64", requires=("C14.R5",))
+R("ceb4013383", "internal", "offset + 1 after peek_u8 succeeded, i.e. offset < len(buffer)")
+R("8a54f9a3cd", "unreach", "the record was selected by rrtype == OPT and the decoder builds RData::Opt for exactly that type", requires=("C14.R1",))
+R("2beddd22c1", "loop", "dns_routes[route] with route from 0..dns_routes.len() under the same read guard")
+R("098c27b463", "loop", "dns_routes[best_route]: an index taken from the same range under the same read guard")
+R("d0f8157fd5", "internal", "best_suffix is set together with best_route")
+R("a02e9c76ae", "internal", "tlvs.len() - 1 immediately after a push")
+R("061ac92a02", "internal", "value[..p + 1] with p a position inside value (rposition), or value[..0]")
+R("94e434c019", "internal", "p + 1 with p < len(value)")
+R("8497e0f07b", "internal", "concat of value[2..] (12 octets: the length was checked to be 14) and 4 zero octets is 16 octets")
+R("2c5c0e5770", "internal", "chunks_exact(16) yields slices of exactly 16 octets")
+R("4365601b4a", "internal", "every option arm pads what it writes to a multiple of 8 octets")
+R("e81b6d25f8", "internal", "serialise() is only called with the advertisement erbium built itself; the other message kinds are never sent", count=2)
+for h in ("92144645bc", "0703a0e489"):
+    R(h, "internal", "patching the checksum field of the 20-octet IPv4 header pushed a few lines above", requires=("C12.R4",))
+for h in ("806e663d1e", "98414097fb"):
+    R(h, "internal", "patching the checksum field of the 8-octet UDP header pushed a few lines above", requires=("C12.R4",))
+R("9ba7aae664", "loop", "i + count == len(buffer) is a loop invariant and count > 1", count=2)
+R("531e3caf16", "loop", "i + 1 < len(buffer)")
+R("b8d3abb7db", "loop", "i + count == len(buffer) is a loop invariant and count > 1")
+R("420047cd5d", "loop", "i + 2 <= len(buffer)")
+R("47d428e3f3", "internal", "sum of at most 32768 16-bit words per buffer of at most 65535 octets fits u32")
+R("6a764779e6", "internal", "sum of at most 32768 16-bit words per buffer of at most 65535 octets fits u32")
+R("a9a13530a4", "internal", "(sum >> 16) + (sum & 0xffff) <= 0xffff + 0xffff")
+R("4d6470b732", "internal", "sum of two in-memory lengths")
